@@ -44,6 +44,8 @@ IGNORED_CHARS = "\n\r\ufeff\t ,"
 
 # The grammar's Digit is ASCII only (str.isdigit() also accepts other Unicode digits).
 DIGITS = "0123456789"
+# EscapedUnicode is exactly four of these (int(x, 16) alone also accepts "0x41", "041 ", "٠٠٤١").
+HEX_DIGITS = "0123456789abcdefABCDEF"
 
 SYMBOLS = {
     cls.value: cls
@@ -228,6 +230,7 @@ class Lexer:
 
     def _read_escaped_unicode(self) -> str:
         start = self._position
+        valid = True
         for _ in range(4):
             try:
                 char = self._source[self._position]
@@ -236,12 +239,13 @@ class Lexer:
 
             self._position += 1
 
-            if not char.isalnum():
+            if char not in HEX_DIGITS:
+                valid = False
                 break
 
         escape = self._source[start : self._position]
 
-        if len(escape) != 4:
+        if not valid or len(escape) != 4:
             raise InvalidEscapeSequence(
                 "\\u%s" % escape, start - 1, self._source
             )
